@@ -20,6 +20,7 @@ import (
 	"context"
 	"crypto/sha256"
 	"crypto/x509"
+	"encoding/binary"
 	"encoding/hex"
 	"errors"
 	"net/http"
@@ -584,6 +585,13 @@ func (a *jwtAuthenticator) calculateCacheKey(ep *endpoint.Endpoint, renderedURL,
 	digest.Write(stringx.ToBytes(renderedURL))
 	digest.Write([]byte{0})
 	digest.Write(stringx.ToBytes(reference))
+
+	// the ttl can be overridden on the rule level. An entry cached with a longer ttl configured
+	// for one rule must not be used by another rule beyond the shorter ttl configured for it
+	if a.ttl != nil {
+		digest.Write([]byte{0})
+		digest.Write(binary.LittleEndian.AppendUint64(nil, uint64(*a.ttl)))
+	}
 
 	return hex.EncodeToString(digest.Sum(nil))
 }
